@@ -399,6 +399,40 @@ int main(int argc, char **argv) {
             plan.stages.push_back(s4);
         }
         {
+            // a whole base to a large negative exponent: a small real, whatever the size of base^|e| as a whole number
+            vx::Stage s5;
+            s5.name   = "large-negative-exponents";
+            s5.chunks = 1;
+            s5.fn     = [](int64_t, vx::Ctx &ctx) {
+                static Rig rig;
+                for (int base : {2, 3, 7, 10}) {
+                    for (int e : {-1, -2, -19, -20, -31, -32, -39, -40, -62, -63, -64, -65, -100, -300}) {
+                        const long double v = powl((long double)base, (long double)e);
+                        struct {
+                            std::string text;
+                            long double val;
+                        } cases[] = {{std::to_string(base) + " ^ " + std::to_string(e), v},
+                                     {std::to_string(base) + " ^ " + std::to_string(e) + " > 1", 0},
+                                     {std::to_string(base) + " ^ " + std::to_string(e) + " < 1", 1},
+                                     {"(" + std::to_string(base) + " ^ " + std::to_string(e) + ") * 2.0", v * 2}};
+                        for (auto &c : cases) {
+                            if (!ctx.next()) {
+                                continue;
+                            }
+                            if (ctx.want_desc()) {
+                                ctx.describe(c.text);
+                            }
+                            ctx.acc.count("states");
+                            RV want = num(c.val, 2);
+                            want.inexact = true;
+                            judge(c.text, RSet{want}, rig, ctx, false);
+                        }
+                    }
+                }
+            };
+            plan.stages.push_back(s5);
+        }
+        {
             // negative base to a negative even exponent: judged here, once per operand form
             vx::Stage s2;
             s2.name   = "negative-base-negative-exponent";
